@@ -581,6 +581,7 @@ impl Monitor for C02 {
             "race_permutations_run",
             "app_sends_delivered",
             "app_sends_failed_because_receiver_failed",
+            "migrations_run",
         ]
     }
     fn rule(&self) -> &'static str {
@@ -611,7 +612,35 @@ impl Monitor for C02 {
         let mut led = Ledger::default();
         let mut pre = c.snap(true);
         let n = h.tier.pick(80, 120);
-        for _ in 0..n {
+        let migrate_at = if h.idx % 5 == 2 { h.rng.range(5, 60) as usize } else { usize::MAX };
+        for i in 0..n {
+            if i == migrate_at {
+                // the token was deployed by an older release (no by-spender index) and is upgraded now:
+                // no balance and no allowance may change, nobody gains authority over anybody's tokens
+                let v = *h.rng.pick(&["0.13.4", "0.9.1", "0.13.0", "0.10.3", "1.1.2"]);
+                let keys: Vec<Vec<u8>> = c.w.store.data.keys().filter(|k| k.windows(17).any(|w| w == b"allowance_spender")).cloned().collect();
+                if v.starts_with("0.") {
+                    for k in keys {
+                        c.w.store.data.remove(&k);
+                    }
+                }
+                cw2::set_contract_version(&mut c.w.store, "crates.io:cw20-base", v).unwrap();
+                let r = c.w.tx(|deps, env| cw20_base::contract::migrate(deps, env, cw20_base::msg::MigrateMsg {}));
+                h.out.evaluations += 1;
+                h.note(format!("migrate from {v} => {}", r.class()));
+                if r.is_ok() {
+                    h.out.count("migrations_run");
+                }
+                let post = c.snap(true);
+                if !h.check(post.bal == pre.bal && post.allow == pre.allow && post.supply == pre.supply, "C02/migrate/balances-or-allowances-changed-by-migration", || {
+                    let diff: Vec<String> = post.allow.iter().filter(|(k, v)| pre.allow.get(*k) != Some(*v)).map(|(k, v)| format!("{}->{}: {:?} -> {:?}", short(&k.0), short(&k.1), pre.allow.get(k), v)).collect();
+                    format!("migrate from {v}: allowance changes {diff:?}")
+                }) {
+                    return;
+                }
+                pre = post;
+                continue;
+            }
             if h.rng.chance(1, 4) {
                 let s = pre.clone();
                 let (b, s_) = gen_advance(&mut h.rng, &mut c, &s);
